@@ -140,7 +140,8 @@ HEADS = [
 HEAD_BODIES = [
     ("base", "q(A,B), v(B), s(A,D)"),
     ("cond", "q(A,B), w(X) : u(X,B); s(A,D)"),
-    ("agg", "q(A,B), #count { X : u(X,B) } >= 1, s(A,D)"),
+    # (local Y, not X: clingo 5.8.2 mis-grounds a choice head and a body aggregate that share a local variable name)
+    ("agg", "q(A,B), #count { Y : u(Y,B) } >= 1, s(A,D)"),
     ("five", "q(A,B,C), t(E), not w(B,E), s(A,D)"),
 ]
 
@@ -298,6 +299,9 @@ def programs():
         ("guard", "{ h(A,X) : d(X) } B"),
     ]:
         add(CHOICE_V + "\n%s :- q(A,B,C), v(B), t(C), s(A,D)." % head, "head-uses-projected/" + th)
+
+    # the one witness of the clingo quirk (source itself is grounded wrongly by clingo, result is right)
+    add(CHOICE_V + "\n{ h(A,X) : d(X,D) } :- q(A,B), #count { X : u(X,B) } >= 1, s(A,D).", "clingo-quirk-local-name-clash")
 
     # ---- F. recursion through the split rule
     rec_base = CHOICE_V + "\nh(X,Y) :- e(X,Y).\n"
